@@ -1205,6 +1205,19 @@ def c12_cases(rng, n_cfg):
             body += ["writef %s" % hx(b"missingdir/x.cfg"), "dump"]
         cases.append("\n".join(body) + "\n")
         stats["cfgs"] += 1
+    # serialisations of an exact length around the multiples of the stdio buffer size (and of buffer size + 1: a
+    # failing flush drops one character per buffer): the point where the last byte fills or overflows the buffer
+    for L in (4095, 4096, 4097, 4098, 8192, 8193, 8194, 8195, 12288, 12291, 12292, 16388):
+        n = L - 8                                   # 's = "' + n bytes + '";\n'
+        body = ["init", "add . h73 5", "set s 0 %s" % hx(b"x" * n), "write"]
+        for fs_opt in (0, 1):
+            body.append("option 64 %d" % fs_opt)
+            for cap in (0, 1, 4095, 4096, L - 1):
+                body += ["wdev %d 0 0 0" % cap, "writef %s" % hx(b"x%d_%d.cfg" % (fs_opt, cap)), "dump"]
+                stats["faults"] += 1
+            body += ["wdev %d 0 0 0" % L, "writef %s" % hx(b"fit%d.cfg" % fs_opt), "dump", "fs cat %s" % hx(b"fit%d.cfg" % fs_opt)]
+        cases.append("\n".join(body) + "\n")
+        stats["exact_lengths"] = stats.get("exact_lengths", 0) + 1
     return cases, stats
 
 
@@ -1251,7 +1264,9 @@ def run_c12(ctx):
     else:
         cases, stats = c12_cases(ctx.rng, 40 if ctx.tier == "quick" else 400)
     res.rule = ("generated configurations (a few bytes to tens of KiB) x fsync option off/on x RLIMIT_FSIZE at 0, 1, 2, 5, "
-                "17, 100, 4095..4097, 8192, 20000 bytes, fsync / fclose / fopen forced to fail, missing directory, and a "
+                "17, 100, 4095..4097, 8192, 20000 bytes, fsync / fclose / fopen forced to fail, missing directory, a "
+                "fault-free write whose file is read back, and configurations whose serialisation has an exact length at "
+                "4095..4098, 8192..8195, 12288..12292, 16388 bytes under limits 0, 1, 4095, 4096, L-1, L; "
                 "fault-free write whose file is read back; return value and error fields compared with the model after "
                 "every call; model-free oracle: success iff nothing was made to fail and the text fits")
     res.distinct = distinct_count(cases)
@@ -1906,6 +1921,24 @@ def writer_cases(rng, ntrees, vectors, big=False):
         for (o, tab, prec, dfmt) in vectors:
             body += ["options %d" % o, "tab %d" % tab, "prec %d" % prec, "deffmt %d" % dfmt, "write"]
         cases.append("\n".join(body) + "\n")
+    # deep chains: nesting x tab width well beyond any fixed indentation buffer (12 levels x 15 columns)
+    for depth in (6, 9, 12):
+        body = ["init"]
+        path = []
+        for lvl in range(depth):
+            ps = gen_api.path_str(path)
+            body.append("add %s %s 2" % (ps, hx(b"v")))
+            body.append("set i %s %d" % (gen_api.path_str(path + [0]), lvl))
+            kind = 1 if lvl % 3 != 2 else 8
+            body.append("add %s %s %d" % (ps, hx(b"g"), kind))
+            path = path + [1]
+            if kind == 8:
+                body.append("add %s - 1" % gen_api.path_str(path))
+                path = path + [0]
+        body.append("dump")
+        for (o, tab, prec, dfmt) in vectors:
+            body += ["options %d" % o, "tab %d" % tab, "prec %d" % prec, "deffmt %d" % dfmt, "write"]
+        cases.append("\n".join(body) + "\n")
     return cases
 
 
@@ -2085,6 +2118,20 @@ def run_c20(ctx):
         big_tail = b"".join(b"k%d = %d;\n" % (i, i) for i in range(1500))
         texts.append(b"first = 1;\n@include \"c20inc.cfg\"\n" + big_tail)
         texts.append(b"@include \"c20inc.cfg\"\n" + big_tail + b"bad = ;\n")
+        # tokens on which the automaton reads ahead and has to back up (an incomplete \\x escape, an exponent without
+        # digits, 0x without digits), with the 8 KiB read boundary at every position inside them
+        backup = [b"\"C:\\xyz\"", b"\"a\\x4z\\x\"", b"\"\\q\\\\\"", b"1.5e+x", b"0xg", b"12e", b"tru", b"@inc"]
+        if ctx.tier != "quick":
+            backup += [b"\"\\x\"", b"1.e-", b"-", b"0x1L", b"/x", b"\"a\\", b".5e"]
+        for tok in backup:
+            for k in range(len(tok) + 1):
+                head = b"".join(b"s%d = %d;\n" % (j, j) for j in range(700))
+                lead = b"zz = "
+                pad = 8192 - k - len(lead)
+                t = head[:pad - 1 - (len(head[:pad - 1]) - head[:pad - 1].rfind(b"\n") - 1)]
+                t = t + b" " * (pad - len(t)) + lead + tok + b";\nafter = 1;\n"
+                assert t[8192 - k - len(lead):8192 - k] == lead
+                texts.append(t)
         # single tokens longer than the scanner's read buffer (YY_BUF_SIZE 16384): the buffer has to grow
         longs = [16382, 16383, 16384, 16385, 20000, 33000] if ctx.tier == "quick" else \
                 [16380 + i for i in range(10)] + [20000, 32766, 32767, 32768, 32769, 50000, 70000]
